@@ -25,7 +25,7 @@ for p in props:
     })
 m = {
     "version": 1,
-    "setup_cmd": "cd /verif && /venv/bin/python -m compileall -q vf && /venv/bin/python -c 'import sys; sys.path.insert(0, \"/verif\"); import vf.core.runner, vf.core.pool, vf.core.state'",
+    "setup_cmd": "cd /verif && /venv/bin/python -m compileall -q vf && /venv/bin/python -W ignore tools/selfcheck.py",
     "hooks": {
         "guard": "UXARRAY_VERIF",
         "enable": "no source hooks exist: checks observe /repo's working tree through its public API (editable install, imported from /repo); UXARRAY_VERIF is reserved and unused",
